@@ -253,6 +253,8 @@ def range_text(rects):
     parenthesised ((B1):(A1)); a parenthesised operand next to a bare one is
     avoided because `(A1):B2` is a listed parser finding (C18)."""
     par = any(p[0] == p[2] and p[1] == p[3] and (r[0] < p[0] or r[1] < p[1]) for p, r in zip(rects, rects[1:]))
+    # with three or more operands the tokenizer may regroup the text (A1:A1:B1:A1 is read A1:A1, B1:A1)
+    par = par or len(rects) >= 3
     return ':'.join(('(%s)' % name(r)) if par else name(r) for r in rects)
 
 
